@@ -124,7 +124,7 @@ def dynframe(name, fmode, nops, kmax=5, vmax=3, idxl=10, tiers=Q, timeout=1200):
 def seg(name, kt, fbits=32, tiers=Q, timeout=900):
     d = dict(KT[kt]); d.update(FLT='float' if fbits == 32 else 'double', FLT_BITS=fbits)
     return dict(name=name, unit='seg.cpp', harness='h_seg.c', defs=d, narrow=0, roots=['@u_seg'], timeout=timeout, tiers=tiers,
-                bounds='Segment::operator() for EVERY %s key triple key <= k1 <= k2 (full width, reserved value excluded), every finite slope in [0,1024] (%d-bit), every intercept < 2^20' % (kt, fbits))
+                bounds='Segment::operator() for EVERY %s key triple key <= k1 <= k2 (full width, reserved value excluded), slopes 0 and (1+m/8)*2^e, m 0..7, e -12..10 (%d-bit type), every intercept < 2^20' % (kt, fbits))
 
 
 JOBS = {}
@@ -166,7 +166,7 @@ JOBS['C11'] = [mapped('mapped_u8_n2', 'uint8_t', 2), mapped('mapped_i8_n2', 'int
 
 JOBS['C09'] = [bucketing('bucket_n2_t3', 2, 3), bucketing('bucket_n2_t4', 2, 4), bucketing('bucket_n3_t3', 3, 3), bucketing('bucket_n3_t4_dyn', 3, 4, topbits=0, tiers=T, timeout=3000), bucketing('bucket_n4_t6', 4, 6, tiers=T, timeout=4000)]
 EF_PROBE = [sdslidx('ef_u16_n1', 'eliasfano.cpp', 'u_eliasfano', 'uint16_t', 1, mem_gb=45, timeout=3600), sdslidx('ef_u16_n2', 'eliasfano.cpp', 'u_eliasfano', 'uint16_t', 2, mem_gb=45, timeout=3600, tiers=T)]
-SEG_JOBS = [seg('seg_' + k.replace('_t', ''), k) for k in ('int8_t', 'uint8_t', 'int16_t', 'int32_t', 'uint32_t', 'int64_t', 'uint64_t')] + [seg('seg_i8_dbl', 'int8_t', 64), seg('seg_u64_dbl', 'uint64_t', 64)]
+SEG_JOBS = [seg('seg_' + k.replace('_t', ''), k) for k in ('int8_t', 'uint8_t')] + [seg('seg_i8_dbl', 'int8_t', 64)] + [seg('seg_' + k.replace('_t', ''), k, tiers=T, timeout=3000) for k in ('int16_t', 'uint16_t')]
 JOBS['C01'] += SEG_JOBS
 JOBS['C02'] = JOBS['C01'] + [j_ for j_ in JOBS['C03'] if j_['name'] == 'mkseg_n3_e1_chunk02']
 JOBS['C07'] = [e2e('e2e_u8_n3_e1_r1', 'uint8_t', 3, 1, 1), e2e('e2e_i8_n2_e1_r1', 'int8_t', 2, 1, 1), e2e('e2e_u8_n4_e1_r1', 'uint8_t', 4, 1, 1, tiers=T, timeout=3000)]
